@@ -90,11 +90,12 @@ func (x *Exec) buildInSpec(name string, v *Value, st *State, depth int, flat *[]
 		if isGhostType(el) {
 			g := x.Load(st, x.ptrOf(v))
 			l := e.layout(el)
-			if len(l) == 2 && l[0].Sort == SArr {
-				sp.Kind, sp.Row, sp.Off, sp.Len = "ghostbuf", g.C[0], IntLit(0), g.C[1]
-				add(name+".len", g.C[1])
+			if len(l) == 3 && l[0].Sort == SArr {
+				sp.Kind, sp.Row, sp.Off, sp.Len = "ghostbuf", g.C[0], g.C[1], g.C[2]
+				add(name+".len", g.C[2])
+				add(name+"#off", g.C[1])
 				for i := 0; i < replayElems; i++ {
-					t := Select(g.C[0], IntLit(int64(i)))
+					t := Select(g.C[0], Add(g.C[1], IntLit(int64(i))))
 					sp.Elems = append(sp.Elems, t)
 					add(fmt.Sprintf("%s.buf[%d]", name, i), t)
 				}
@@ -132,6 +133,20 @@ func (x *Exec) buildInSpec(name string, v *Value, st *State, depth int, flat *[]
 			off += n
 		}
 	case *types.Interface:
+		if isStreamIface(u) && e.bufferType() != nil {
+			// a reader: replayed as a *bytes.Buffer holding the ghost stream
+			g := x.Load(st, &Ptr{Heap: v.C[1], RootT: e.bufferType()})
+			sp.Kind, sp.Row, sp.Off, sp.Len, sp.Term = "ghostbuf", g.C[0], g.C[1], g.C[2], v.C[0]
+			sp.T = types.NewPointer(e.bufferType())
+			add(name+".len", g.C[2])
+			add(name+"#off", g.C[1])
+			for i := 0; i < replayElems; i++ {
+				t := Select(g.C[0], Add(g.C[1], IntLit(int64(i))))
+				sp.Elems = append(sp.Elems, t)
+				add(fmt.Sprintf("%s.buf[%d]", name, i), t)
+			}
+			return sp
+		}
 		sp.Kind = "iface"
 		sp.Term = v.C[0]
 		add(name+"#tag", v.C[0])
@@ -191,9 +206,7 @@ func (g *replayGen) expr(sp *InSpec) string {
 		g.pins = append(g.pins, fmt.Sprintf("(assert (= %s %s))", sp.Len.S, smtInt(n)))
 		var els []string
 		off, _ := g.mint(sp.Name + "#off")
-		if sp.Kind != "ghostbuf" {
-			g.pins = append(g.pins, fmt.Sprintf("(assert (= %s %s))", sp.Off.S, smtInt(off)))
-		}
+		g.pins = append(g.pins, fmt.Sprintf("(assert (= %s %s))", sp.Off.S, smtInt(off)))
 		rowLit := "((as const (Array Int Int)) 0)"
 		for i := 0; i < replayElems && int64(i) < n; i++ {
 			key := fmt.Sprintf("%s[%d]", sp.Name, i)
@@ -381,6 +394,15 @@ func TestGvcReplay(t *testing.T) {
 			o.replayConfirmed = true
 			o.replayNote = "real code panics on the model's input (obligation kind " + o.Kind + "): " + line
 		}
+		return
+	}
+	if strings.Contains(outs, "fatal error:") || strings.Contains(outs, "panic:") {
+		i := strings.Index(outs, "fatal error:")
+		if i < 0 {
+			i = strings.Index(outs, "panic:")
+		}
+		o.replayConfirmed = true
+		o.replayNote = "real code crashes on the model's input: " + firstLine(outs[i:])
 		return
 	}
 	if !strings.Contains(outs, "GVC-DONE") {
